@@ -188,6 +188,18 @@ def execute(case, tmpdir):
     path = os.path.join(tmpdir, 'c20.parquet')
     if os.path.exists(path):
         os.remove(path)
+    src_rows = rows
+    if case.get('rowtype') == 'sqlite' and kind in ('ids', 'flat') and rows:
+        # the rows as a database cursor hands them out: sqlite3.Row objects (indexable by
+        # column name; `in` looks at the values, keys() lists the columns)
+        import sqlite3
+        cols = list(schema.names)
+        conn = sqlite3.connect(':memory:')
+        conn.row_factory = sqlite3.Row
+        conn.execute('create table t (%s)' % ', '.join(cols))
+        conn.executemany('insert into t values (%s)' % ', '.join('?' for _ in cols),
+                         [tuple(r[c] for c in cols) for r in rows])
+        src_rows = conn.execute('select * from t order by rowid').fetchall()
     ended = []
     sink = None
     if mode == 'path':
@@ -211,8 +223,13 @@ def execute(case, tmpdir):
             bad = dict(rows[k])
             bad.pop('id')
             return rx.from_(rows[:k] + [bad] + rows[k + 1:])
-        return rx.from_(rows)
-    piped = rx.defer(source).pipe(
+        return rx.from_(src_rows)
+    feed = rx.defer(source)
+    if case.get('after_store'):
+        # the rows come out of a store section (a keyed stage first, the export after it)
+        import rxsci as rs
+        feed = feed.pipe(rs.state.with_memory_store(pipeline=rx.pipe(rs.ops.map(lambda r: r))))
+    piped = feed.pipe(
         P.dump_to_file(target, schema, batch_size=b, row_group_size=rgs,
                        compression=None if comp == 'none-as-None' else comp))
     if case.get('retry') and mode == 'path' and rows:
@@ -332,7 +349,9 @@ def mk_case(N, b, m, comp='snappy', mode='path', rgs=None, schema='ids', rowseed
             'resub': mode == 'path' and _RESUB[0] % 3 == 0,
             'retry': mode == 'path' and _RESUB[0] % 5 == 1 and schema in ('ids', 'flat') and N > 0,
             'at_completion': _RESUB[0] % 4 == 2,
-            'load_twice': ([-1, 1, m, m + 1][_RESUB[0] % 4] if _RESUB[0] % 7 in (0, 3) else 0)}
+            'load_twice': ([-1, 1, m, m + 1][_RESUB[0] % 4] if _RESUB[0] % 7 in (0, 3) else 0),
+            'after_store': _RESUB[0] % 6 == 1 and not (mode == 'path' and _RESUB[0] % 5 == 1),
+            'rowtype': 'sqlite' if _RESUB[0] % 6 == 4 and schema in ('ids', 'flat') else 'dict'}
 
 
 def to_tlc(tr):
@@ -400,6 +419,8 @@ def do_replay(path):
     for k in ('resub', 'retry', 'at_completion'):
         case[k] = old.get(k, False)
     case['load_twice'] = old.get('load_twice', 0)
+    case['after_store'] = old.get('after_store', False)
+    case['rowtype'] = old.get('rowtype', 'dict')
     with C.scratch('rxsci-verif.c20.') as d:
         new = execute(case, d)
     v, _ = validate([new], (True, True))
